@@ -21,9 +21,11 @@ type recipeOut struct {
 	txs      [][]byte
 	approve  [][]byte // governance txs that the shared proposals.json must approve
 	evidence []*bft.DoubleSignEvidence
-	orderTx  []byte // a create-order tx (its hash prefix becomes the order id once included)
+	orderTx  []byte   // a create-order tx (its hash prefix becomes the order id once included)
 	orderTxs [][]byte // create-order txs of the two-order recipes (ids appended to world.pair in inclusion order)
-	signers  []int  // who signs this block's certificate (nil = the whole committee)
+	signers  []int    // who signs this block's certificate (nil = the whole committee)
+	vdf      string   // "" none | "bad" a proof that does not verify (the leader must drop it) | "good" a valid one
+	twice    bool     // the leader builds its proposal twice at this height (a failed round in between); the second one is used
 }
 
 type recipe struct {
@@ -171,6 +173,18 @@ var recipes = []recipe{
 		}
 		return o
 	}},
+	// the bft module hands the leader a verifiable-delay proof: one that does not verify for the last block
+	// (dropped by the leader, so the header carries none and the running total must not count it), a valid one,
+	// and a valid one when the leader builds its proposal a second time at the same height
+	{"sendBadVDF", "proposal-with-invalid-vdf", func(w *world, h uint64) recipeOut {
+		return recipeOut{txs: [][]byte{sendFee(10, 11, 1005, 10000, h)}, vdf: "bad"}
+	}},
+	{"sendGoodVDF", "proposal-with-vdf", func(w *world, h uint64) recipeOut {
+		return recipeOut{txs: [][]byte{sendFee(10, 11, 1006, 10000, h)}, vdf: "good"}
+	}},
+	{"reproposeGoodVDF", "second-proposal-at-one-height-with-vdf", func(w *world, h uint64) recipeOut {
+		return recipeOut{txs: [][]byte{sendFee(10, 11, 1007, 10000, h)}, vdf: "good", twice: true}
+	}},
 }
 
 func recipeByName(n string) int {
@@ -187,7 +201,7 @@ func recipeByName(n string) int {
 type world struct {
 	g          *fsm.GenesisState
 	A, B, R, S *env.Node
-	lastOrder  string // hex order id of the last create-order that made it into a block
+	lastOrder  string   // hex order id of the last create-order that made it into a block
 	pair       []string // hex ids of the orders created by createTwoOrders, in inclusion order
 }
 
@@ -301,7 +315,8 @@ type blockRec struct {
 	NumTxs   int      `json:"num_txs"`
 	StateKey string   `json:"state_key"` // after commit
 	Order    string   `json:"order,omitempty"`
-	Slashes  int      `json:"slashes"` // double signers named in the certificate results
+	Slashes  int      `json:"slashes"`       // double signers named in the certificate results
+	VDF      []byte   `json:"vdf,omitempty"` // the (JSON) verifiable-delay proof handed to the proposer (nil = none)
 }
 
 func headerNoTime(h *lib.BlockHeader) string {
